@@ -597,3 +597,46 @@ Proof.
   - unfold uniq_pub_ids. vm_compute. repeat constructor; cbn; intuition discriminate.
   - vm_compute. repeat split.
 Qed.
+
+(** a subscriber that sends a REQ while it is not reading (buflen 1):
+    connection 1's REQ is taken by its session, the subscription is registered,
+    and the session's goroutine stands in front of the EOSE, which nobody
+    reads.  Connection 0 publishes 49, 50 and 51 and gets every OK at once: 49
+    is taken by connection 1's forwarder, 50 waits in the queue, 51 is dropped
+    (the queue is full).  Then connection 1 reads again.  The code fixes no
+    order between the EOSE (sent by the receive loop) and the waiting events
+    (sent by the forwarder); both orders are histories of the model, and the
+    oracle accepts both.  It rejects a history in which the publisher is not
+    answered while the subscriber does not read. *)
+Definition ex_unread_prefix : list label :=
+  [LOp c1 (OReq ex_a [empty_filter]); LRun c1; LRun c1] ++ ex_pub 49 ++ [LTake c1] ++ ex_pub 50 ++ ex_pub 51.
+Definition ex_h4 : history := model_history 1%nat 2%nat (ex_unread_prefix ++ [LRun c1; LDeliver c1; LTake c1; LDeliver c1]).
+Definition ex_h5 : history := model_history 1%nat 2%nat (ex_unread_prefix ++ [LDeliver c1; LRun c1; LTake c1; LDeliver c1]).
+Definition unanswer (h : history) (id : N) : history :=
+  mkHist (hi_buf h)
+         (List.map (fun o => match h_o o with
+                             | OEvent e => if str_eqb (ev_id e) [id] then mkHop (h_c o) (h_o o) (h_b o) None else o
+                             | _ => o
+                             end) (hi_ops h))
+         (map_at 0%nat (filter (fun ms : xmsg * Z => match fst ms with XOk i _ _ => negb (str_eqb i [id]) | _ => true end))
+                 (hi_outs h))
+         (hi_drained h).
+
+Example C07_ex_unread_req_history :
+  (* in the middle: the REQ is in flight, its subscription is registered, the publisher is through *)
+  (let s := run (r_init 1%nat) ex_unread_prefix in
+   c_pc (r_cs s c1) = [IEose ex_a] /\ sub_of s c1 ex_a = Some [empty_filter] /\ c_pc (r_cs s c0) = [] /\
+   List.map erase (flow (r_cs s c1)) = [WEvent ex_a (ex_e 49); WEvent ex_a (ex_e 50)] /\
+   List.map (fun d => snd (fst d)) (c_drops (r_cs s c1)) = [ex_e 51]) /\
+  List.map (List.map (fun ms : xmsg * Z => fst ms)) (hi_outs ex_h4) =
+  [[XOk [49]%N true true; XOk [50]%N true true; XOk [51]%N true true];
+   [XEose ex_a; XEvent ex_a (ex_e 49); XEvent ex_a (ex_e 50)]] /\
+  List.map (List.map (fun ms : xmsg * Z => fst ms)) (hi_outs ex_h5) =
+  [[XOk [49]%N true true; XOk [50]%N true true; XOk [51]%N true true];
+   [XEvent ex_a (ex_e 49); XEose ex_a; XEvent ex_a (ex_e 50)]] /\
+  (* the REQ overlaps the three publications *)
+  sequential ex_h4 = false /\
+  det_oracle ex_h4 = true /\ det_oracle ex_h5 = true /\
+  (* "a subscriber that stops reading never delays publishers" *)
+  replies_ok (unanswer ex_h4 50) = false /\ timed_oracle (unanswer ex_h4 50) = false.
+Proof. vm_compute. repeat split. Qed.
